@@ -274,7 +274,12 @@ class SchemaValidator:
                     if isinstance(composite_type, ObjectType)
                     else None
                 )
-                or self.schema.default_resolver
+                or (
+                    # Interface fields are never resolved.
+                    self.schema.default_resolver
+                    if isinstance(composite_type, ObjectType)
+                    else None
+                )
             )
 
             if resolver and self.enable_resolver_validation:
